@@ -364,14 +364,14 @@ func visitInstr(fr *frame, instr ssa.Instruction) continuation {
 		idx := fr.get(instr.Index)
 		switch x := x.(type) {
 		case []value:
-			if p := fr.i.symTableRead(x, idx, fr.site(instr)); p != nil {
+			if p := fr.i.symTableReadAddr(instr, x, idx, fr.site(instr)); p != nil {
 				fr.env[instr] = p
 				break
 			}
 			fr.env[instr] = &x[fr.i.concInt(idx, 0, int64(len(x)), fr.site(instr))]
 		case *value: // *array
 			a := (*x).(array)
-			if p := fr.i.symTableRead(a, idx, fr.site(instr)); p != nil {
+			if p := fr.i.symTableReadAddr(instr, a, idx, fr.site(instr)); p != nil {
 				fr.env[instr] = p
 				break
 			}
